@@ -397,3 +397,17 @@ package rag
 //@   ensures count: len(res.Chunks) == predCount(cc.Chunks, len(cc.Chunks))
 //@   ensures exact_in_order: forall j int :: {cc.Chunks[j]} 0 <= j && j < len(cc.Chunks) && fv_predicate(cc.Chunks[j]) ==> res.Chunks[predCount(cc.Chunks, j)] == cc.Chunks[j]
 
+
+// ---- C12 (layout-based chunker): every chunk reports the final number of chunks; constructors stamp the index ----
+//@ func (*Chunker) createChunk results (ch)
+//@   property C12
+//@   flags nosafety
+//@   ensures stamped: ch.Metadata.ChunkIndex == index && ch.Metadata.PageStart == section.PageStart && ch.Metadata.PageEnd == section.PageEnd && ch.Metadata.SectionTitle == section.Title && ch.Metadata.DocumentTitle == docTitle && ch.Text == text
+
+//@ func (*Chunker) Chunk results (res, err)
+//@   property C12
+//@   flags nosafety
+//@   ensures nil_document_is_error: isnil(doc) ==> err
+//@   ensures every_chunk_reports_the_total: !err ==> forall k int :: {res.Chunks[k]} 0 <= k && k < len(res.Chunks) ==> res.Chunks[k].Metadata.TotalChunks == len(res.Chunks)
+//@   loop 1:
+//@     invariant len(result.Chunks) == entry(len(result.Chunks)) && forall k int :: {result.Chunks[k]} 0 <= k && k < $i ==> result.Chunks[k].Metadata.TotalChunks == len(result.Chunks)
